@@ -568,6 +568,55 @@ impl E2 {
                 let _ = std::fs::remove_dir_all(&dst);
                 res
             }
+            // C15: one commit is held inside apply (active-memtable lock taken by the facade) while
+            // `n` oversized commits fail with BatchTooLarge and one more small commit is attempted
+            ["qoverflow", n, big] => {
+                let n: usize = n.parse().unwrap();
+                let big: usize = big.parse().unwrap();
+                let tree = self.tree.as_ref().unwrap();
+                let mut out: Vec<String> = Vec::new();
+                let _g = self.rt.enter();
+                let mut slow = tree.begin_with_mode(Mode::ReadWrite).unwrap();
+                slow.set(b"slow".to_vec(), b"1".to_vec()).unwrap();
+                let rt = &self.rt;
+                let res = surrealkv::verif::pipefail::with_active_memtable_locked(tree, || {
+                    let h = rt.spawn(async move { slow.commit().await.map_err(|e| err_name(&e)) });
+                    std::thread::sleep(std::time::Duration::from_millis(300));
+                    out.push(format!("slow_finished_early={}", h.is_finished()));
+                    for i in 0..n {
+                        let mut tx = tree.begin_with_mode(Mode::ReadWrite).unwrap();
+                        tx.set(format!("big{}", i).into_bytes(), vec![7u8; big]).unwrap();
+                        let r = std::panic::catch_unwind(std::panic::AssertUnwindSafe(|| rt.block_on(tx.commit())));
+                        out.push(match r {
+                            Ok(Ok(())) => "ok".into(),
+                            Ok(Err(e)) => format!("err:{}", err_name(&e)),
+                            Err(p) => format!("PANIC:{}", p.downcast_ref::<String>().cloned().or_else(|| p.downcast_ref::<&str>().map(|s| s.to_string())).unwrap_or_default().replace(' ', "_")),
+                        });
+                    }
+                    let mut tx = tree.begin_with_mode(Mode::ReadWrite).unwrap();
+                    tx.set(b"last".to_vec(), b"2".to_vec()).unwrap();
+                    // the last commit would block in apply as well (the lock is still held): give it a thread
+                    let hl = rt.spawn(async move { tx.commit().await.map_err(|e| err_name(&e)) });
+                    std::thread::sleep(std::time::Duration::from_millis(300));
+                    (h, hl)
+                });
+                let (h, hl) = res;
+                let show = |r: Result<Result<(), String>, tokio::task::JoinError>| match r {
+                    Ok(Ok(())) => "ok".to_string(),
+                    Ok(Err(e)) => format!("err:{}", e),
+                    Err(j) => {
+                        if j.is_panic() {
+                            let p = j.into_panic();
+                            format!("PANIC:{}", p.downcast_ref::<String>().cloned().or_else(|| p.downcast_ref::<&str>().map(|s| s.to_string())).unwrap_or_default().replace(' ', "_"))
+                        } else {
+                            "cancelled".to_string()
+                        }
+                    }
+                };
+                let last = show(self.rt.block_on(hl));
+                let slow_r = show(self.rt.block_on(h));
+                format!("{} last={} slow={}", out.join(","), last, slow_r)
+            }
             ["rotate"] => self.phys(|t| fe::rotate(t)),
             ["flush"] => self.phys(|t| fe::flush_all(t)),
             ["flush1"] => self.phys(|t| fe::flush_oldest(t).map(|_| ())),
